@@ -4,7 +4,8 @@
 //! kinds: 0 generic trait (u32 values)     1 MinidumpModuleList      11 MinidumpMemoryList
 //!        12 MinidumpMemoryInfoList (stream bytes)   2 MinidumpLinuxMaps (maps text)
 //!        3 MinidumpUnloadedModuleList     4 FUNC records   41 STACK CFI INIT records
-//!        5 line records of one FUNC
+//!        5 line records of one FUNC    13-17 Memory64 / Unified* views    18 MinidumpModuleList::read (stream bytes)
+//!        42/43 STACK WIN frame-data / FPO tables
 use minidump::*;
 use minidump_common::traits::IntoRangeMapSafe;
 use range_map::Range;
@@ -179,6 +180,34 @@ fn run(line: &str) -> String {
             }
             for &q in &qs {
                 gets.push(list.modules_at_address(q).map(|md| tag_of_name(&md.code_file())).collect());
+            }
+        }
+        18 => {
+            // MinidumpModuleList::read from MINIDUMP_MODULE_LIST bytes: u32 count, then 108-byte MINIDUMP_MODULEs.
+            // The entry's position in the stream rides in the checksum; every name is the string at rva 0 of `all`.
+            use minidump::Module;
+            let all: Vec<u8> = vec![4, 0, 0, 0, b'm', 0, b'x', 0];
+            let mut bytes: Vec<u8> = vec![];
+            bytes.extend_from_slice(&(ents.len() as u32).to_le_bytes());
+            for (i, &(b, s, _)) in ents.iter().enumerate() {
+                bytes.extend_from_slice(&b.to_le_bytes()); // base_of_image
+                bytes.extend_from_slice(&(s as u32).to_le_bytes()); // size_of_image
+                bytes.extend_from_slice(&(i as u32).to_le_bytes()); // checksum (tag)
+                bytes.extend_from_slice(&0u32.to_le_bytes()); // time_date_stamp
+                bytes.extend_from_slice(&0u32.to_le_bytes()); // module_name_rva
+                bytes.extend_from_slice(&[0u8; 52]); // version_info
+                bytes.extend_from_slice(&[0u8; 8]); // cv_record
+                bytes.extend_from_slice(&[0u8; 8]); // misc_record
+                bytes.extend_from_slice(&[0u8; 16]); // reserved0, reserved1
+            }
+            let list = MinidumpModuleList::read(&bytes, &all, scroll::LE, None).expect("module list read");
+            for md in list.by_addr() {
+                let b = md.base_address();
+                let e = b + md.size() - 1;
+                table.push(format!("{}-{}:{}", b, e, md.raw.checksum));
+            }
+            for &q in &qs {
+                gets.push(list.module_at_address(q).map(|md| vec![md.raw.checksum.to_string()]).unwrap_or_default());
             }
         }
         13 | 14 | 15 => {
